@@ -183,6 +183,7 @@ func streamEngineLife(t *testing.T, o *Out) {
 	id := 0
 	run := func(c *EngCase, kind string, cancelAt, failAt int, persistent bool, pre bool) {
 		id++
+		o.Pre("engine", fmt.Sprintf("%s%d", kind, id), c.Payload())
 		env.setLimits(c)
 		old := checkgroup.DefaultFactory
 		checkgroup.DefaultFactory = checkgroup.NewConcurrent
